@@ -460,3 +460,15 @@ func vScenarioFiles() map[string][]byte {
 	}
 	return out
 }
+
+// vSpare returns b as a slice with 16 bytes of spare CAPACITY behind it, filled with 0xEE: memory
+// that belongs to the caller just like the bytes of the slice (the next member of an archive, the
+// rest of a mapped file). Harnesses compare in[:cap(in)] before and after a call.
+func vSpare(b []byte) []byte {
+	buf := make([]byte, len(b)+16)
+	copy(buf, b)
+	for i := len(b); i < len(buf); i++ {
+		buf[i] = 0xEE
+	}
+	return buf[:len(b):len(buf)]
+}
